@@ -211,10 +211,10 @@ export class RangeListManager {
           if (oldSharedKeyMap?.[k] !== undefined || newSharedKeyMap?.[k] !== undefined) {
             updatePathTree[i] = true
           } else {
-            const subTree = (oriUpdatePathTree as { [s: string]: UpdatePathTreeNode })[i] as
-              | { [s: string]: UpdatePathTreeNode }
-              | undefined
-              | true
+            // (the tree of an object list is keyed by field names, not by positions)
+            const subTree = (oriUpdatePathTree as { [s: string]: UpdatePathTreeNode })[
+              indexes === null ? i : indexes[i]!
+            ] as { [s: string]: UpdatePathTreeNode } | undefined | true
             if (subTree === undefined) {
               // empty
             } else if (subTree === true || (keyName === '*this' ? subTree : subTree?.[keyName])) {
@@ -224,6 +224,11 @@ export class RangeListManager {
             }
           }
         }
+        allowFastComparison = false
+      } else if (indexes !== null) {
+        // the tree of an object list is keyed by field names: convert it to positions
+        const tree = oriUpdatePathTree as { [s: string]: UpdatePathTreeNode }
+        updatePathTree = indexes.map((k) => tree[k]) as UpdatePathTreeNode[]
         allowFastComparison = false
       } else {
         updatePathTree = oriUpdatePathTree
